@@ -1,7 +1,7 @@
 CONSTANTS Depth = 4
  Leaves = {"error", "fixt.A", "clash.C", "fixt.Gen[fixt2.B]", "subjson.J", "stdjson.RawMessage", "fixt.Gen[dotted.D]"}
  Ctors = {"ptr", "slice", "mapS", "chan", "struct2"}
- Targets = {"fixt", "fixt2", "clash-pre"}
+ Targets = {"fixt", "fixt2", "clash-pre", "dotted"}
  Views = {"types", "reflect"}
 INIT GenInit
 NEXT GenNone
